@@ -4,6 +4,7 @@ CONSTANTS
   FileKinds <- AllKinds
   MaxFiles = 3
   Untils <- AllUntils
+  Decorations <- Plain
   ArgStates <- OkArgs
 INVARIANT TypeOK
 INVARIANT ExitCodeTable
